@@ -292,6 +292,13 @@ func checkC03(c *Check) {
 			c.OK(key+":selection", posI, "h = φ(action, handlers[index])", 1)
 			eq := edgesWhere(run, cCmp(token.EQL, idx, hlen), true)
 			ne := edgesWhere(run, cCmp(token.EQL, idx, hlen), false)
+			// inside the loop (index <= len(handlers)) the test `index < len(handlers)` separates the same two cases
+			if leG := edgesWhere(run, cCmp(token.LEQ, idx, hlen), true); len(leG) > 0 {
+				if inLoop, _ := guardedBy(run, leG, func(x ssa.Instruction) bool { return x == ssa.Instruction(hphi) }); inLoop {
+					eq = union(eq, edgesWhere(run, cCmp(token.LSS, idx, hlen), false))
+					ne = union(ne, edgesWhere(run, cCmp(token.LSS, idx, hlen), true))
+				}
+			}
 			okAct, okIdx := false, false
 			for i, e := range hphi.Edges {
 				pred := hphi.Block().Preds[i]
